@@ -89,11 +89,15 @@ def f_meta(d):
     return f_meta_tok([(key_tok(k), val_tok(v)) for k, v in d.items()])
 
 
+_WC = [0]
+
+
 def w_py(q):
-    """weight quanta (1/4) -> python number"""
+    """weight quanta (1/4) -> python number; whole numbers alternate between int and float (1 vs 1.0)"""
     if q is None:
         return None
-    return q // 4 if q % 4 == 0 else q / 4
+    _WC[0] += 1
+    return q // 4 if (q % 4 == 0 and _WC[0] % 2 == 0) else q / 4
 
 
 def w_tok(w):
@@ -530,6 +534,7 @@ class Impl:
         self.lab = lab
         self.rank = {repr(v): i for i, v in enumerate(lab)}
         self.slots = {}
+        _WC[0] = 0
 
     def L(self, raw):
         return tuple(self.lab[x] for x in raw)
@@ -1062,6 +1067,8 @@ class Gen:
     def __init__(self, rng, n, weighted):
         self.rng, self.n, self.weighted = rng, n, weighted
         self.tpool = rng.sample(ALLT, rng.randint(2, 4))
+        if rng.random() < 0.5 and 0 not in self.tpool:
+            self.tpool[0] = 0
         self.epool = [self.rand_set() for _ in range(rng.randint(3, 5))]
 
     def rand_set(self):
@@ -1078,7 +1085,7 @@ class Gen:
 
     def weight(self, sp, ok=True):
         if sp.weighted:
-            return self.rng.choice([None, 4, 2, 6, 8, 1, 3, 12])
+            return self.rng.choice([None, 4, 4, 2, 6, 8, 1, 3, 12, 0])
         if ok:
             return self.rng.choice([None, None, 4])
         return self.rng.choice([8, 2])
@@ -1118,7 +1125,7 @@ class Gen:
             ts = [self.time() for _ in range(k)]
             ws = None
             if rng.random() < (0.6 if sp.weighted else 0.12):
-                ws = [rng.choice([4, 2, 6, 8]) for _ in range(k)]
+                ws = [rng.choice([4, 2, 6, 8, 0]) for _ in range(k)]
                 if not mal:
                     seen, r2, t2, w2 = set(), [], [], []
                     for e, t, w in zip(raws, ts, ws):
@@ -1182,7 +1189,7 @@ class Gen:
             return ["addnodes", slot, ns, mm]
         if r < 0.74:
             e, t = self.present(sp)
-            w = rng.choice([4, 2, 6, 8, 1]) if (sp.weighted or mal) else 4
+            w = rng.choice([4, 2, 6, 8, 1, 0]) if (sp.weighted or mal) else 4
             if mal and sp.weighted:
                 t = self.badtime()
             return ["setw", slot, e, t, w]
@@ -1222,7 +1229,7 @@ def make_labels(rng, n):
     if kind == "shift":
         base = rng.randint(5, 90)
         return kind, sorted(rng.sample(range(base, base + 3 * n), n + 1))
-    pool = ["A", "B", "Ba", "E1", "N0", "a", "ab", "b", "c", "zz"]
+    pool = ["", "A", "B", "Ba", "E1", "N0", "a", "ab", "b", "c", "zz"]
     return kind, sorted(rng.sample(pool, n + 1))
 
 
@@ -1391,7 +1398,7 @@ def run_history(ctx, drv, rng, full=False, nops=None):
         raws = [g.edge() for _ in range(k)]
         raws = [list(e) for e in {tuple(e): 1 for e in raws}]
         ts = [g.time() for _ in raws]
-        ws = [rng.choice([4, 2, 6]) for _ in raws] if (weighted or rng.random() < 0.2) and rng.random() < 0.7 else None
+        ws = [rng.choice([4, 2, 6, 0]) for _ in raws] if (weighted or rng.random() < 0.2) and rng.random() < 0.7 else None
         mds = [gen_md(rng, False) for _ in raws] if rng.random() < 0.5 else None
         nmd = [[x, gen_md(rng, False)] for x in rng.sample(range(n), rng.randint(1, 2))] if rng.random() < 0.5 else None
         R.do(["ctor", 0, int(weighted), nmd, raws, ts, ws, mds, int(rng.random() < 0.5)])
